@@ -17,6 +17,7 @@ import (
 
 	regv1 "github.com/google/go-containerregistry/pkg/v1"
 	"github.com/spf13/afero"
+	corev1 "k8s.io/api/core/v1"
 	kerrors "k8s.io/apimachinery/pkg/api/errors"
 	metav1 "k8s.io/apimachinery/pkg/apis/meta/v1"
 	"k8s.io/apimachinery/pkg/apis/meta/v1/unstructured"
@@ -71,6 +72,29 @@ func streamB(variant string) ([]byte, []string) {
 	}
 	return pkgh.Stream(docs...), names
 }
+
+var imageCache = map[string]map[string]regv1.Image{}
+
+// images are immutable and expensive to build (gzip, sha256): build once.
+func images(variant string, bStream []byte) map[string]regv1.Image {
+	if m, ok := imageCache[variant]; ok {
+		return m
+	}
+	m := map[string]regv1.Image{
+		"A": pkgh.BuildImage(streamA(), pkgh.AnnotatedBase, nil),
+		"B": pkgh.BuildImage(bStream, pkgh.AnnotatedBase, nil),
+		"Q": pkgh.BuildImage(pkgh.Stream(pkgh.MetaYAML("Provider", "q", ""), pkgh.CRDYAML("ex.org", "KW", "q")), pkgh.AnnotatedBase, nil),
+	}
+	imageCache[variant] = m
+	return m
+}
+
+type prepared struct {
+	store *simkube.Store
+	files map[string][]byte
+}
+
+var preparedCache = map[string]*prepared{}
 
 type world struct {
 	s       *simkube.Store
@@ -176,56 +200,61 @@ type fsInfo = os.FileInfo
 
 var ctxBG = context.Background()
 
-func body(r *explore.Run, rep *report.R, sc string, variant string, depth int) {
+func admission(op *simkube.AdmissionOp) error {
+	if op.Key.GK() == crdGK && op.Key.Name == crdName("KBad") && op.Verb != "DELETE" {
+		return kerrors.NewInvalid(crdGK, op.Key.Name, field.ErrorList{field.Invalid(field.NewPath("spec"), "x", "rejected by the API server")})
+	}
+	return nil
+}
+
+func mkProvider(name, repo string) *v1.Provider {
+	one := int64(1)
+	return &v1.Provider{
+		TypeMeta:   metav1.TypeMeta{APIVersion: v1.SchemeGroupVersion.String(), Kind: v1.ProviderKind},
+		ObjectMeta: metav1.ObjectMeta{Name: name},
+		Spec:       v1.ProviderSpec{PackageSpec: v1.PackageSpec{Package: repo + ":v1", RevisionHistoryLimit: &one}},
+	}
+}
+
+func registry(variant string) (*pkgh.Registry, []string) {
+	bStream, bNames := streamB(variant)
+	return &pkgh.Registry{
+		Table:  map[string]string{repoP + ":v1": "A", repoP + ":v2": "B", repoQ + ":v1": "Q"},
+		Images: images(variant, bStream),
+	}, bNames
+}
+
+// prepare builds (once per variant, fault free, not explored) the initial
+// state: package p at v1 with revision A active and established, plus the
+// variant's pre-existing objects.
+func prepare(variant string) *prepared {
+	if pc, ok := preparedCache[variant]; ok {
+		return pc
+	}
 	xrh.BeginExecution(1)
 	s := xrh.NewStore()
-	bStream, bNames := streamB(variant)
-	reg := &pkgh.Registry{
-		Table: map[string]string{repoP + ":v1": "A", repoP + ":v2": "B", repoQ + ":v1": "Q"},
-		Images: map[string]regv1.Image{
-			"A": pkgh.BuildImage(streamA(), pkgh.AnnotatedBase, nil),
-			"B": pkgh.BuildImage(bStream, pkgh.AnnotatedBase, nil),
-			"Q": pkgh.BuildImage(pkgh.Stream(pkgh.MetaYAML("Provider", "q", ""), pkgh.CRDYAML("ex.org", "KW", "q")), pkgh.AnnotatedBase, nil),
-		},
+	reg, _ := registry(variant)
+	fs := afero.NewMemMapFs()
+	s.Admit = append(s.Admit, admission)
+	s.Seed(mkProvider("p", repoP))
+	// The runtime hooks (not part of this closed system) normally create the
+	// TLS server secret the establisher reads for webhook CA bundles.
+	for _, n := range []string{"p", "q"} {
+		s.Seed(&corev1.Secret{TypeMeta: metav1.TypeMeta{APIVersion: "v1", Kind: "Secret"}, ObjectMeta: metav1.ObjectMeta{Namespace: "crossplane-system", Name: n + "-tls-server"}, Data: map[string][]byte{"tls.crt": []byte("cert")}})
 	}
-	w := &world{s: s, reg: reg, fs: afero.NewMemMapFs(), r: r, variant: variant, bNames: bNames}
-	w.inj = &xrh.FaultInjector{Run: r, Reads: true, NoCrash: true, Filter: func(c simkube.Call) bool { return c.Client == "rev" }}
-	s.Inj = w.inj
-	s.Admit = append(s.Admit, func(op *simkube.AdmissionOp) error {
-		if op.Key.GK() == crdGK && op.Key.Name == crdName("KBad") && op.Verb != "DELETE" {
-			return kerrors.NewInvalid(crdGK, op.Key.Name, field.ErrorList{field.Invalid(field.NewPath("spec"), "x", "rejected by the API server")})
-		}
-		return nil
-	})
-	one := int64(1)
-	mk := func(name, repo string) *v1.Provider {
-		return &v1.Provider{
-			TypeMeta:   metav1.TypeMeta{APIVersion: v1.SchemeGroupVersion.String(), Kind: v1.ProviderKind},
-			ObjectMeta: metav1.ObjectMeta{Name: name},
-			Spec:       v1.ProviderSpec{PackageSpec: v1.PackageSpec{Package: repo + ":v1", RevisionHistoryLimit: &one}},
-		}
-	}
-	s.Seed(mk("p", repoP))
 	mgr := pkgh.NewProviderManager(s.Client("mgr"), reg)
-	rr := w.newRevReconciler()
-	reconcileRev := func(name string) xrh.Outcome {
-		_, act, _ := w.revisionState(name)
-		w.cur, w.curAct = name, act
-		return xrh.Reconcile(rr.r, types.NamespacedName{Name: name})
-	}
-	// ---- preparation (fault free): P at v1 with revision A established ----
+	rr := pkgh.NewRevisionReconciler(pkgh.RevisionOptions{Kind: "Provider", Client: s.Client("rev"), Registry: reg, Fs: fs})
 	var prepErr error
 	for i := 0; i < 2; i++ {
 		xrh.Reconcile(mgr, types.NamespacedName{Name: "p"})
-		prepErr = reconcileRev(w.revName("A")).Err
+		prepErr = xrh.Reconcile(rr, types.NamespacedName{Name: xpkg.FriendlyID("p", pkgh.Digest("A"))}).Err
 	}
 	switch variant {
 	case "conflict-q":
-		s.Seed(mk("q", repoQ))
+		s.Seed(mkProvider("q", repoQ))
 		for i := 0; i < 2; i++ {
 			xrh.Reconcile(mgr, types.NamespacedName{Name: "q"})
-			w.cur, w.curAct = "q", true
-			xrh.Reconcile(rr.r, types.NamespacedName{Name: xpkg.FriendlyID("q", pkgh.Digest("Q"))})
+			xrh.Reconcile(rr, types.NamespacedName{Name: xpkg.FriendlyID("q", pkgh.Digest("Q"))})
 		}
 		if c := crds(s)[crdName("KW")]; c == nil || controllerUID(c) == "" {
 			panic(explore.HarnessError{Msg: "preparation: q did not establish W: " + describe(s)})
@@ -238,6 +267,7 @@ func body(r *explore.Run, rep *report.R, sc string, variant string, depth int) {
 		t := true
 		f.SetOwnerReferences([]metav1.OwnerReference{{APIVersion: "v1", Kind: "ConfigMap", Name: "someone", UID: "foreign-uid", Controller: &t}})
 		s.Seed(f)
+		s.Seed(&corev1.ConfigMap{TypeMeta: metav1.TypeMeta{APIVersion: "v1", Kind: "ConfigMap"}, ObjectMeta: metav1.ObjectMeta{Namespace: "default", Name: "someone", UID: "foreign-uid"}})
 	case "uncontrolled":
 		f := &unstructured.Unstructured{}
 		f.SetAPIVersion("apiextensions.k8s.io/v1")
@@ -248,11 +278,42 @@ func body(r *explore.Run, rep *report.R, sc string, variant string, depth int) {
 	if c := crds(s)[crdName("KX")]; c == nil {
 		panic(explore.HarnessError{Msg: fmt.Sprintf("preparation: revision A not established: %s err=%v", describe(s), prepErr)})
 	}
+	pc := &prepared{store: s, files: map[string][]byte{}}
+	_ = afero.Walk(fs, "/", func(p string, fi fsInfo, _ error) error {
+		if fi != nil && !fi.IsDir() {
+			b, _ := afero.ReadFile(fs, p)
+			pc.files[p] = b
+		}
+		return nil
+	})
+	preparedCache[variant] = pc
+	return pc
+}
+
+func body(r *explore.Run, rep *report.R, sc string, variant string, depth int) {
+	pc := prepare(variant)
+	xrh.BeginExecution(1)
+	s := pc.store.Clone()
+	reg, bNames := registry(variant)
+	fs := afero.NewMemMapFs()
+	for p, b := range pc.files {
+		_ = afero.WriteFile(fs, p, b, 0o644)
+	}
+	w := &world{s: s, reg: reg, fs: fs, r: r, variant: variant, bNames: bNames}
+	w.inj = &xrh.FaultInjector{Run: r, Reads: report.Thorough(), NoCrash: true, Filter: func(c simkube.Call) bool { return c.Client == "rev" }}
+	s.Inj = w.inj
+	mgr := pkgh.NewProviderManager(s.Client("mgr"), reg)
+	rr := w.newRevReconciler()
+	reconcileRev := func(name string) xrh.Outcome {
+		_, act, _ := w.revisionState(name)
+		w.cur, w.curAct = name, act
+		return xrh.Reconcile(rr.r, types.NamespacedName{Name: name})
+	}
 	s.OnWrite = append(s.OnWrite, w.onWrite)
 
 	events := []string{"mgr", "rev-A", "rev-B", "src=v2", "src=v1", "gc", "delete-inactive-revisions"}
 	var trail []string
-	established := map[string]bool{} // revisions that completed an active reconcile
+	established := map[string]bool{w.revName("A"): true} // revisions that completed an active reconcile
 	for step := 0; step < depth; step++ {
 		var files []string
 		_ = afero.Walk(w.fs, "/", func(p string, _ fsInfo, _ error) error { files = append(files, p); return nil })
@@ -335,7 +396,8 @@ func body(r *explore.Run, rep *report.R, sc string, variant string, depth int) {
 			// E1: all or nothing. If the active revision could not establish
 			// its objects, it wrote none of them (unless an injected fault hit
 			// a real write half way, which no controller can avoid).
-			if active && (out.Err != nil || !healthy) && !faultOnRealWrite && len(realWrites) > 0 {
+			establishFailed := out.Err != nil && strings.Contains(out.Err.Error(), "cannot establish control of object")
+			if active && establishFailed && !faultOnRealWrite && len(realWrites) > 0 {
 				r.Failf("E1/partial-establish/"+variant, "revision %s failed to establish its objects (err %v) yet performed %v", name, out.Err, realWrites)
 			}
 			want := []string{crdName("KX"), crdName("KY")}
@@ -390,7 +452,9 @@ func body(r *explore.Run, rep *report.R, sc string, variant string, depth int) {
 			}
 			// Objects that could not be taken over are left exactly as they were.
 			for _, n := range []string{crdName("KW"), crdName("KF")} {
-				if pre[n] != nil && (post[n] == nil || post[n].GetResourceVersion() != pre[n].GetResourceVersion()) {
+				// (An inactive revision adding a plain owner reference is its
+				// documented role and out of scope here.)
+				if active && pre[n] != nil && (post[n] == nil || post[n].GetResourceVersion() != pre[n].GetResourceVersion()) {
 					r.Failf("E1/foreign-object-modified", "%s, controlled by another owner, was changed by revision %s", n, name)
 				}
 			}
@@ -428,7 +492,7 @@ func TestCheck(t *testing.T) {
 		[]string{"simkube models the API server incl. dry-run and an admission predicate that answers identically for dry-run and real writes", "establisher concurrency 1 (its workers run one at a time); crash outcomes are not injected because the establisher issues calls from worker goroutines", "the Kubernetes garbage collector is modelled as 'delete objects all of whose owners are gone', run to a fixpoint as one event"},
 		[]string{"simkube", "go-containerregistry (real image construction)", "afero in-memory filesystem for the package cache"},
 	)
-	depth := 6
+	depth := 5
 	variants := []string{"upgrade", "conflict-q", "rejected", "foreign", "uncontrolled"}
 	if report.Thorough() {
 		depth = 7
